@@ -143,6 +143,45 @@ def MSet.cloneEmpty (s : MSet α) : MSet α := { impl := s.impl, members := [] }
 def MSet.string (fmt : α → String) (s : MSet α) : String :=
   "{" ++ ", ".intercalate (s.members.map fmt) ++ "}"
 
+/-- `New(equal, vals...)` / `NewStable` / `NewSorted` with initial values: `s.Add(vals...)` on the empty set -/
+def MSet.newWith (impl : Impl α) (vals : List α) : Outcome (MSet α) := (MSet.new impl).add vals
+
+/-! ## AnyMatch, AllMatch, FirstMatch, SelectMatch, PartitionMatch (all range over `s.members` as stored) -/
+
+/-- `for _, m := range s.members { if p(m) { return true } }; return false` -/
+def MSet.anyMatch (s : MSet α) (p : α → Bool) : Bool := s.members.any p
+/-- `for _, m := range s.members { if !p(m) { return false } }; return true` -/
+def MSet.allMatch (s : MSet α) (p : α → Bool) : Bool := s.members.all p
+/-- `for _, m := range s.members { if p(m) { return m, true } }; return zero, false` -/
+def MSet.firstMatch (s : MSet α) (p : α → Bool) : Option α := s.members.find? p
+
+/-- `for _, m := range s.members { if p(m) { matched.Add(m) } else { unmatched.Add(m) } }`
+(`SelectMatch` is the same loop without the `else`) -/
+def partitionLoop (p : α → Bool) (matched unmatched : MSet α) : List α → Outcome (MSet α × MSet α)
+  | [] => .ok (matched, unmatched)
+  | m :: ms => do
+    if p m then
+      let matched ← matched.add [m]
+      partitionLoop p matched unmatched ms
+    else
+      let unmatched ← unmatched.add [m]
+      partitionLoop p matched unmatched ms
+
+def selectLoop (p : α → Bool) (matched : MSet α) : List α → Outcome (MSet α)
+  | [] => .ok matched
+  | m :: ms => do
+    if p m then
+      let matched ← matched.add [m]
+      selectLoop p matched ms
+    else selectLoop p matched ms
+
+/-- `matched := s.CloneEmpty(); for … ; return matched` -/
+def MSet.selectMatch (s : MSet α) (p : α → Bool) : Outcome (MSet α) :=
+  selectLoop p s.cloneEmpty s.members
+
+def MSet.partitionMatch (s : MSet α) (p : α → Bool) : Outcome (MSet α × MSet α) :=
+  partitionLoop p s.cloneEmpty s.cloneEmpty s.members
+
 /-! ## Equal, All, IsSubset, IsSuperset -/
 
 /-- `for _, m := range s.members { if !rhs.Contains(m) { return false } }; return true` -/
@@ -359,6 +398,11 @@ inductive Op (α : Type) where
   | union (d i : Nat) (js : List Nat)
   | inter (d i : Nat) (js : List Nat)
   | diff (d i : Nat) (js : List Nat)
+  | anyMatch (i : Nat) (p : α → Bool)
+  | allMatch (i : Nat) (p : α → Bool)
+  | firstMatch (i : Nat) (p : α → Bool)
+  | select (d i : Nat) (p : α → Bool)
+  | partitionM (d e i : Nat) (p : α → Bool)
 
 /-- what an operation lets the caller see -/
 inductive Obs (α : Type) where
@@ -367,6 +411,10 @@ inductive Obs (α : Type) where
   | int (n : Int)
   /-- the values yielded by `All()`, or the members of the set a set-algebra call returned -/
   | elems (l : List α)
+  /-- `FirstMatch`: the value found, if any -/
+  | opt (o : Option α)
+  /-- `PartitionMatch`: the members of the two sets returned -/
+  | elems2 (l₁ l₂ : List α)
   /-- a register number out of range: not an operation of the set package, the state is unchanged -/
   | bad
 
@@ -454,6 +502,35 @@ def stepOp (sh : Shuffle σ) (st : RegState α σ) : Op α → Outcome (RegState
         return ((st.1.set d t, g), .elems t.members)
       else .ok (st, .bad)
     | _, _ => .ok (st, .bad)
+
+  | .anyMatch i p =>
+    match st.1[i]? with
+    | none => .ok (st, .bad)
+    | some s => .ok (st, .bool (s.anyMatch p))
+  | .allMatch i p =>
+    match st.1[i]? with
+    | none => .ok (st, .bad)
+    | some s => .ok (st, .bool (s.allMatch p))
+  | .firstMatch i p =>
+    match st.1[i]? with
+    | none => .ok (st, .bad)
+    | some s => .ok (st, .opt (s.firstMatch p))
+  | .select d i p =>
+    match st.1[i]? with
+    | some s =>
+      if d < st.1.length then do
+        let t ← s.selectMatch p
+        return ((st.1.set d t, st.2), .elems t.members)
+      else .ok (st, .bad)
+    | none => .ok (st, .bad)
+  | .partitionM d e i p =>
+    match st.1[i]? with
+    | some s =>
+      if d < st.1.length ∧ e < st.1.length then do
+        let (t, u) ← s.partitionMatch p
+        return (((st.1.set d t).set e u, st.2), .elems2 t.members u.members)
+      else .ok (st, .bad)
+    | none => .ok (st, .bad)
 
 def runOps (sh : Shuffle σ) : List (Op α) → RegState α σ → Outcome (RegState α σ × List (Obs α))
   | [], st => .ok (st, [])
